@@ -565,7 +565,7 @@ def run_check(prop_id, tier, nshards=None, replay=None):
                                % (prop_id, e["what"], e["id"], known_counts[e["id"]]))
             reproduced.add(e["id"])
 
-    shrink_budget = 25.0 if tier == "quick" else 120.0
+    shrink_budget = 0.0 if os.environ.get("VERIF_NO_SHRINK") else (25.0 if tier == "quick" else 120.0)
     for clause, case, detail, count in new_buckets:
         small, sdetail = shrink(mod, case, clause, findings, budget_s=shrink_budget)
         path = write_replay(prop_id, clause, small, sdetail or detail, seed, tier)
